@@ -7,20 +7,22 @@ TRUSTED = ["ConstPool::Tree::get/insert/new_node_t and Arena::alloc_oneshot<Gap>
            "get returns NULL or a node placed by an earlier add of this size; new_node_t/alloc return NULL or a fresh record): not proved in this unit"]
 
 
-def add_unit(size, tiers):
+def add_unit(size, tiers, nper=2):
     return Unit(name="c19.add.%s" % ("size%d" % size if size else "invalid"), props=["C19", "C15", "C14"], tu=CP, roots=["asmjit::ConstPool::add"], stops=STOPS,
                 target="ConstPool_add", contracts="contracts/c19_constpool.h", harness="harness/c19_add.c", replay="replay/c19_add.cpp", dfcc=False, unwind=34,
                 unwindset=(["ConstPool_addGap.0:7"] if size else ["ConstPool_addGap.0:1", "ConstPool_add.0:1", "ConstPool_add.1:1", "ConstPool_add.2:1"]), object_bits=8, mem_gb=20, quick_defines=["NPER=1"],
-                defines=(["VERIF_CONSTSIZE=%d" % size] if size else []), tiers=tiers, timeout=1500, kind="bounded",
-                bound_note="pre-state: 0..2 registered gaps per size class (offsets symbolic, disjoint), 0..1 spare gap record, pool size <= 2^30; "
+                defines=(["VERIF_CONSTSIZE=%d" % size] if size else []), thorough_defines=["NPER=%d" % nper], tiers=tiers, timeout=1500, thorough_timeout=3000, kind="bounded",
+                bound_note="pre-state: 0..%d registered gaps per size class in the thorough tier, 0..1 in the quick tier (offsets symbolic, disjoint), 0..1 spare gap record, pool size <= 2^30; " % nper
                            + ("constant size %d, contents symbolic" % size if size else "every size that is not a power of two <= 64 (the loops of add() are unreachable "
                                                                                          "for these: unwinding assertions at bound 1 prove it)"),
                 trusted=TRUSTED)
 
 
 ALL = ("quick", "thorough")
-UNITS = [add_unit(0, ALL), add_unit(1, ("thorough",)), add_unit(2, ("thorough",)), add_unit(4, ("thorough",)),
-         add_unit(8, ("thorough",)), add_unit(16, ALL), add_unit(32, ("thorough",)), add_unit(64, ALL)]
+# size 1 (six iterations of the gap loop) does not finish within an hour even with one gap per class: kept as a dev unit, not claimed.
+# sizes 2/4/8 take ~500 s with one gap per class and do not finish with two; 16/32/64 take 5-20 minutes with two.
+UNITS = [add_unit(0, ALL), add_unit(1, ("dev",), 1), add_unit(2, ("thorough",), 1), add_unit(4, ("thorough",), 1),
+         add_unit(8, ("thorough",), 1), add_unit(16, ALL), add_unit(32, ("thorough",)), add_unit(64, ALL)]
 
 UNITS += [
     Unit(name="c19.reset", props=["C16", "C19"], tu="asmjit/core/constpool.cpp", roots=["asmjit::ConstPool::reset"], target="ConstPool_reset",
